@@ -422,7 +422,8 @@ class Inliner(object):
         for p, v in bound:
             # a variable of the caller handed to a helper that closes over its parameter: the helper holds the value
             # the variable has at the call, whatever the caller binds the name to afterwards - kept in a local of its own
-            if _simple(v) and p not in stored and not (isinstance(v, ast.Name) and _captured_late(p)):
+            if _simple(v) and p not in stored and not (isinstance(v, ast.Name) and _captured_late(p)
+                                                       and _rebound_later(getattr(self, "current_fn", None), v.id, call)):
                 subst[p] = v
             else:
                 rename[p] = p + suffix
@@ -700,10 +701,34 @@ class Inliner(object):
         return changed
 
 
+def _rebound_later(fn, name, call):
+    """may the caller bind ``name`` again after the call (a store below it, or anywhere in a loop around it)?
+    Unknown caller: yes."""
+    if fn is None:
+        return True
+    line = getattr(call, "lineno", 0)
+    stores = [n for n in ast.walk(fn) if (isinstance(n, ast.Name) and n.id == name and isinstance(n.ctx, (ast.Store, ast.Del)))]
+    if any(getattr(s_, "lineno", 0) >= line for s_ in stores):
+        return True
+    for lp in [n for n in ast.walk(fn) if isinstance(n, (ast.For, ast.While))]:
+        inside = list(ast.walk(lp))
+        if any(x is call for x in inside) and any(s_ in inside for s_ in stores):
+            return True
+    return False
+
+
 def run_inliner(inl, fn, known=frozenset()):
     base = inl.function
 
     def function(f, outer_local=None):
+        prev_ = getattr(inl, "current_fn", None)
+        inl.current_fn = f
+        try:
+            return _function(f, outer_local)
+        finally:
+            inl.current_fn = prev_
+
+    def _function(f, outer_local=None):
         local = dict(outer_local or {})
         nested_defs = []
         for blk in _blocks_of(f):
